@@ -31,3 +31,17 @@ Theorem C15_registration_sent_before_ack :
 Proof. vm_compute. reflexivity. Qed.
 Theorem C15_single_consumer : length (filter (fun t => existsb (fun o => match o with CommitWord => true | _ => false end) (snd t)) p_tasks) = 1%nat.
 Proof. vm_compute. reflexivity. Qed.
+
+(** sequential model: the session a conversion issues is in the store when the conversion returns, and it stays there - whatever
+    else is converted, confirmed, registered or applied, and however many sessions pile up - until it is itself confirmed or the
+    server restarts: there is no eviction *)
+From Chokan Require Server.ServerModel Server.SessionProofs.
+Theorem C15_conversion_stores_session : forall fuel base s input ctx s' k texts,
+  ServerModel.step_f fuel base s (ServerModel.GetCandidates input ctx) = Str.Ok (s', ServerModel.RCands k texts) ->
+  exists x, In x (ServerModel.s_sessions s') /\ ServerModel.ss_id x = k /\ ServerModel.ss_ctx x = ctx /\ map Search.cand_text (ServerModel.ss_cands x) = texts.
+Proof. exact SessionProofs.conversion_stores_session. Qed.
+Theorem C15_session_survives : forall base rs s fin resps x, ServerModel.run base s rs = Str.Ok (fin, resps) -> In x (ServerModel.s_sessions s) ->
+  (forall r, In r rs -> ~ SessionProofs.touches r (ServerModel.ss_id x)) -> In x (ServerModel.s_sessions fin).
+Proof. exact SessionProofs.session_survives. Qed.
+Print Assumptions C15_conversion_stores_session.
+Print Assumptions C15_session_survives.
